@@ -23,7 +23,7 @@ func tier() string { return os.Getenv("VERIF_TIER") }
 
 func budgetFor(t string) Budget {
 	if t == "thorough" {
-		return Budget{Points: 80, NRand: 4, Stage2: 20, Points2: 10, Workers: 12}
+		return Budget{Points: 120, NRand: 4, Stage2: 24, Points2: 10, Workers: 12}
 	}
 	return Budget{Points: 26, NRand: 2, Stage2: 5, Points2: 5, Workers: 12}
 }
